@@ -27,6 +27,9 @@ type Shared struct {
 	S3, S4, S0 *secp256k1.Scalar // small shared scalars: 9, 2, 0
 	EB, EU, SB []byte
 	encBuf     []byte
+	// U is the shared argument of the exported map functions SSWU and Secp256Polynomial. (IsogenySecp256k13iso
+	// works in place on its argument and returns it: that argument is a receiver, not a shared read-only value.)
+	U *field.Element
 }
 
 func rawElement(p ref.Pt, l *big.Int) *secp256k1.Element {
@@ -46,6 +49,7 @@ var (
 	pt5G = ref.Secp.Mul(big.NewInt(5), ref.G())
 	valA = new(big.Int).Sub(ref.N, big.NewInt(12345))
 	valB = new(big.Int).Add(new(big.Int).Lsh(big.NewInt(1), 200), big.NewInt(77))
+	valU = new(big.Int).Sub(ref.P, big.NewInt(0xabcdef987))
 )
 
 // NewShared builds a fresh, deterministic shared state.
@@ -78,6 +82,7 @@ func NewSharedFill(mask byte) *Shared {
 	s.EB = s.encBuf[:33]
 	s.EU = s.encBuf[33 : 33+65]
 	s.SB = s.encBuf[98 : 98+32]
+	s.U = &field.Element{E: ref.Mont(valU, ref.P)}
 
 	return s
 }
@@ -96,6 +101,10 @@ func (s *Shared) SnapshotInto(dst []byte) []byte {
 	put := func(w uint64) {
 		binary.LittleEndian.PutUint64(w8[:], w)
 		b = append(b, w8[:]...)
+	}
+
+	for _, w := range s.U.E {
+		put(w)
 	}
 
 	for _, e := range []*secp256k1.Element{s.E1, s.E2, s.E0} {
@@ -360,11 +369,9 @@ var Ops = []Op{
 	{"HashToGroup(M,Dlong) #api", func(sh *Shared) []byte { return secp256k1.HashToGroup(sh.M, sh.DLong).Encode() }},
 	{"EncodeToGroup(M,Dlong) #api", func(sh *Shared) []byte { return secp256k1.EncodeToGroup(sh.M, sh.DLong).Encode() }},
 	{"SSWU+Isogeny+Polynomial #api", func(sh *Shared) []byte {
-		u := field.New().One()
-		u.Add(u, u)
-		p := secp256k1.IsogenySecp256k13iso(secp256k1.SSWU(u))
+		p := secp256k1.IsogenySecp256k13iso(secp256k1.SSWU(sh.U))
 		y := field.New()
-		secp256k1.Secp256Polynomial(y, u)
+		secp256k1.Secp256Polynomial(y, sh.U)
 		b := y.Bytes()
 
 		return append(p.Encode(), b[:]...)
